@@ -1248,7 +1248,7 @@ class Engine:
 
     # ------------------------------------------------------------------ loops
     def assigned_names(self, stmts):
-        names, attrs = set(), set()
+        names, attrs, mutated = set(), set(), set()
         for n in ast.walk(ast.Module(body=list(stmts), type_ignores=[])):
             if isinstance(n, (ast.Assign, ast.AugAssign, ast.For)):
                 targets = n.targets if isinstance(n, ast.Assign) else [n.target]
@@ -1260,6 +1260,10 @@ class Engine:
                             attrs.add(ast.unparse(x))
                         if isinstance(x, ast.Subscript) and isinstance(x.ctx, ast.Store):
                             b = x.value
+                            while isinstance(b, ast.Subscript):        # t[i][j] = v mutates (an element of) t
+                                b = b.value
+                            if isinstance(b, ast.Name):
+                                mutated.add(b.id)
                             if isinstance(b, ast.Name):
                                 names.add(b.id)
                             elif isinstance(b, ast.Attribute):
@@ -1269,10 +1273,14 @@ class Engine:
             if isinstance(n, ast.Call) and isinstance(n.func, ast.Attribute) and \
                     n.func.attr in ('append', 'pop', 'insert', 'remove', 'sort', 'extend', 'add', 'update', 'reverse', 'write'):
                 b = n.func.value
+                while isinstance(b, ast.Subscript):        # t[i].append(v) mutates (a row of) t
+                    b = b.value
                 if isinstance(b, ast.Name):
                     names.add(b.id)
+                    mutated.add(b.id)
                 elif isinstance(b, ast.Attribute):
                     attrs.add(ast.unparse(b))
+        self.last_mutated = mutated          # names mutated in place (not merely re-bound): aliases of a row havoc the table
         # ghost code anchored at a statement of this block assigns its ghost names too
         gc = self.frames[-1]['contract'].get('ghost_code') if self.frames else None
         if gc:
@@ -1314,6 +1322,9 @@ class Engine:
             self.pc.append(v.length >= 0)
             v.rowlen = self.fresh(name + '_rowlen', v.rowlen.sort())
             v.rows = self.fresh(name + '_rows', v.rows.sort())
+            if v.rowlen.sort().domain() == z3.IntSort() and v.rowlen.sort().range() == z3.IntSort():
+                kq = z3.Int('k!rowlen')
+                self.pc.append(z3.ForAll([kq], z3.Select(v.rowlen, kq) >= 0))          # every row is a python list: len >= 0
             if v.present is not None:
                 v.present = self.fresh(name + '_keys', v.present.sort())
             return v
@@ -1343,6 +1354,8 @@ class Engine:
             self.pc.append(v.length >= 0)
             v.lo, v.hi, v.single = self.fresh(name + '_lo', v.lo.sort()), self.fresh(name + '_hi', v.hi.sort()), self.fresh(name + '_single', v.single.sort())
             return v
+        if isinstance(v, VRow):
+            return VRow(v.parent, self.fresh(name + '_rowidx'))       # some row of the same table (or none): reads are arbitrary
         if isinstance(v, VCounted):
             n = self.fresh(name + '_count')
             self.pc.append(n >= 0)
@@ -1421,6 +1434,40 @@ class Engine:
             self.havoc_object(o, spec.get('modifies_fields', {}).get(x))
             for f in (spec.get('modifies_fields', {}).get(x) or o.fields):
                 havoced.add('{}.{}'.format(x, f))
+        for nme in sorted(names & getattr(self, 'last_mutated', set())):
+            if isinstance(env.get(nme), VRow):
+                # a name bound to a row of a table before the loop and mutated inside it: the table changes
+                self.havoc_value(nme + '_table', env[nme].parent)
+        for nme in sorted(names & getattr(self, 'last_mutated', set())):
+            v = env.get(nme)
+            if isinstance(v, VTuple) and v.kind == 'list':
+                # a concrete list object is REPLACED by the havoc: any other reference to the same object would keep the old value
+
+                inner = []
+
+                def collect(x):
+                    if isinstance(x, VTuple) and x.kind == 'list' and not any(x is y for y in inner):
+                        inner.append(x)
+                        for y in x.items:
+                            collect(y)
+                collect(v)
+
+                def reaches(x, seen):
+                    if any(x is y for y in inner):
+                        return True
+                    if id(x) in seen:
+                        return False
+                    seen.add(id(x))
+                    if isinstance(x, VTuple):
+                        return any(reaches(y, seen) for y in x.items)
+                    if isinstance(x, VObj):
+                        return any(reaches(y, seen) for y in x.fields.values())
+                    if isinstance(x, VOpt):
+                        return reaches(x.val, seen)
+                    return False
+                others = [k for k, x in env.items() if k != nme and reaches(x, set())]
+                if others:
+                    raise Unsupported('list {} is mutated in a loop while {} refers to the same object'.format(nme, others[0]))
         for nme in sorted(names):
             lty = self.frames[-1]['contract'].get('locals', {}).get(nme, '') if self.frames else ''
             if nme in env and isinstance(lty, str) and lty.startswith('optobj:') and (env[nme] is None or isinstance(env[nme], (VOpt, VObj))):
@@ -1745,6 +1792,16 @@ class Engine:
             niter = it.length
             arr0 = it.arr
             elem = lambda i: z3.Select(arr0, i)
+        elif isinstance(it, VZipCI):
+            niter = zmin(specs.clen(it.cterm), specs.ilen(it.iterm))
+            zc, zi = it.cterm, it.iterm
+            elem = lambda i: VTuple([VSeq(specs.cget(zc, i)), specs.iget(zi, i)], 'tuple')
+        elif isinstance(it, VArr2) and it.present is None:
+            # a list of lists iterated row by row: each row as it is when the loop reaches it (rows may be mutated by the body only
+            # through the loop contract's invariants)
+            niter = it.length
+            a2 = it
+            elem = lambda i: VRow(a2, i)
         elif isinstance(it, VGroups):
             niter = it.length
             glo, ghi, gsi = it.lo, it.hi, it.single
@@ -3180,6 +3237,8 @@ class Engine:
                 raise Unsupported('function argument without a gadget contract')
             if ty == 'iseq' and isinstance(env.get(pn), VTuple):
                 env[pn] = VSeq(_term(env[pn]))
+            if ty == 'iseq' and isinstance(env.get(pn), VRow):
+                env[pn] = VSeq(specs.iofarr(env[pn].arr, toz(env[pn].length)))      # a row of a list of lists as an abstract sequence
             if ty == 'iseq' and isinstance(env.get(pn), VArr):
                 if env[pn].arr.sort().range() != z3.IntSort():
                     raise Unsupported('non-int array passed where an abstract literal list is expected')
@@ -3603,6 +3662,8 @@ def _mentions(e, v):
 def as_arr(v):
     if isinstance(v, VArr):
         return v
+    if isinstance(v, VRow):
+        return VArr(v.length, v.arr)
     if isinstance(v, VRange) and v.step == 1:
         t = z3.Int('rng!j')
         return VArr(zmax(toz(v.hi) - toz(v.lo), z3.IntVal(0)), z3.Lambda([t], toz(v.lo) + t))
@@ -3846,7 +3907,7 @@ def sf_blockcall(eng, node, off, n2, index):
 
 SPEC_FUNCS = {
     'blockcall': sf_blockcall,
-    'combs2': lambda eng, node, lo, hi: VCombs2(toz(lo), toz(hi)), 'cvar': _wrap(specs.cvar), 'degsum': _wrap(specs.degsum), 'gadj': _wrap(specs.gadj), 'pvar': _wrap(specs.pvar), 'isqf': _wrap(specs.isqf), 'pairlits': _wrap(specs.pairlits), 'aps': _wrap(specs.aps), 'sqr': _wrap(specs.sqr), 'mhas': lambda eng, node, m, k: z3.Select(m.present, _term(k)), 'mget': lambda eng, node, m, k: z3.Select(m.val, _term(k)), 'glo': lambda eng, node, g, i: z3.Select(g.lo, toz(i)), 'ghi': lambda eng, node, g, i: z3.Select(g.hi, toz(i)),
+    'combs2': lambda eng, node, lo, hi: VCombs2(toz(lo), toz(hi)), 'cvar': _wrap(specs.cvar), 'degsum': _wrap(specs.degsum), 'gadj': _wrap(specs.gadj), 'pvar': _wrap(specs.pvar), 'isqf': _wrap(specs.isqf), 'pairlits': _wrap(specs.pairlits), 'aps': _wrap(specs.aps), 'cntstar': _wrap(specs.cntstar), 'imem': _wrap(specs.imem), 'imemp': _wrap(specs.imemp), 'sqr': _wrap(specs.sqr), 'mhas': lambda eng, node, m, k: z3.Select(m.present, _term(k)), 'mget': lambda eng, node, m, k: z3.Select(m.val, _term(k)), 'glo': lambda eng, node, g, i: z3.Select(g.lo, toz(i)), 'ghi': lambda eng, node, g, i: z3.Select(g.hi, toz(i)),
     'gsingle': lambda eng, node, g, i: z3.Select(g.single, toz(i)), 'cnb': _wrap(specs.cnb), 'isorted': _wrap(specs.isorted), 'nbj': _wrap(specs.nbj), 'nbv': _wrap(specs.nbv), 'lnbrs': _wrap(specs.lnbrs),
     'mapcall': sf_mapcall, 'mrow': _wrap(specs.mrow), 'mcol': _wrap(specs.mcol),
     'evnest': _wrap(specs.evnest), 'dedges': _wrap(specs.dedges),
@@ -4138,7 +4199,16 @@ def b_int(eng, node, v):
     raise Unsupported('int() of non-int')
 
 
+class VZipCI:
+    """zip(<sequence of int tuples>, <sequence of ints>): pairs (tuple, int), as many as the shorter one has"""
+
+    def __init__(self, cterm, iterm):
+        self.cterm, self.iterm = cterm, iterm
+
+
 def b_zip(eng, node, *args):
+    if len(args) == 2 and isinstance(args[0], VSeq) and args[0].sortname == 'CSeq' and isinstance(args[1], VSeq) and args[1].sortname == 'ISeq':
+        return VZipCI(args[0].term, args[1].term)
     if all(isinstance(a, VTuple) for a in args):
         n = min(len(a.items) for a in args)
         return VTuple([VTuple([a.items[i] for a in args]) for i in range(n)], 'list')
@@ -4332,6 +4402,14 @@ def lm_pop(eng, node, o, *a):
 
 def _fresh_row(eng):
     return eng.fresh('row', z3.ArraySort(z3.IntSort(), z3.IntSort()))
+
+
+def lm_row_append(eng, node, row, x):
+    p = row.parent
+    n = row.length
+    p.rows = z3.Store(p.rows, row.i, z3.Store(row.arr, n, toz(x)))
+    p.rowlen = z3.Store(p.rowlen, row.i, n + 1)
+    return None
 
 
 def lm_row_insert(eng, node, row, pos, x):
@@ -4682,6 +4760,6 @@ def lm_tuple_index(eng, node, o, x):
 
 LIST_METHODS = {('VMList', 'sort'): lm_mclist_sort, ('VTuple', 'index'): lm_tuple_index, ('VSeq', 'index'): lm_iseq_index, ('VStr', 'strip'): lm_str_strip, ('VStr', 'split'): lm_str_split, ('VStr', 'isascii'): lm_str_pred,
                 ('VStr', 'isdigit'): lm_str_pred, ('VStr', 'startswith'): lm_str_pred, ('VStr', 'lstrip'): lm_str_strip,
-                ('VStr', 'rstrip'): lm_str_strip, ('VOpaqueFile', 'readlines'): lm_readlines, ('VArr2', 'get'): lm_dict_get, ('VRow', 'insert'): lm_row_insert, ('VRow', 'remove'): lm_row_remove, ('VArr2', 'append'): lm_arr2_append,
+                ('VStr', 'rstrip'): lm_str_strip, ('VOpaqueFile', 'readlines'): lm_readlines, ('VArr2', 'get'): lm_dict_get, ('VRow', 'insert'): lm_row_insert, ('VRow', 'append'): lm_row_append, ('VRow', 'remove'): lm_row_remove, ('VArr2', 'append'): lm_arr2_append,
                 ('VSet2', 'add'): lm_set_add, ('VSet2', 'remove'): lm_set_remove,('VTuple', 'append'): lm_append, ('VCounted', 'append'): lm_append, ('VGroups', 'append'): lm_append, ('VMList', 'append'): lm_append, ('VArr', 'append'): lm_append,
                 ('VTuple', 'pop'): lm_pop, ('VArr', 'pop'): lm_pop}
